@@ -64,7 +64,7 @@ CHECKS.update({
  'C19': dict(
    technique='bounded CBMC check (harness-enforced contract) of the extracted AttributedItem::dumpString, FileReader::splitFields and FileReader::trim: write-then-read round trip of field texts over the full character set',
    level='other',
-   text='BOUNDED, partial: every field text of up to 5 characters (two fields: up to 3 characters each) without line breaks and surrounding blanks, written with dumpString (quoting of separators and quotes) and read back with splitFields, yields exactly the same field list, the line is read as one line (a following line is never swallowed), for the full character set including field separators, value separators and single/doubled/leading/trailing quotes. The column mapping (MappedFileReader, MessageMap::getFieldMap/addFromFile), the definition writers (Message::dump, DataField::dump, DataType::dump) and therefore the whole-definition round trip are NOT decided.',
+   text='BOUNDED, partial: every field text of up to 5 characters (two fields: up to 3 characters each) without line breaks and surrounding blanks, written with dumpString (quoting of separators and quotes) and read back with splitFields, yields exactly the same field list, the line is read as one line (a following line is never swallowed), for the full character set including field separators, value separators and single/doubled/leading/trailing quotes. The column mapping (MappedFileReader, MessageMap::getFieldMap/addFromFile), the definition writers (Message::dump, DataField::dump, DataType::dump) and therefore the whole-definition round trip are NOT decided. One dump writer is under contract: ChainedMessage::dumpField writes the id column of a chained definition as id bytes in two hex digits, : and the part length in decimal (the base Message::create reads it back with), parts separated by ; - for every stream format state on entry (chains of up to 3 parts).',
    note=TB + 'bounded string model (line capacity 12 / 18 characters, unwinding assertions); std::string/ostringstream/istream/vector<string> are value models; lines starting with # or // (comment lines) and empty lines are excluded as first field; multi-line quoted fields are not generated by dumpString and are not covered.',
    ref='DESIGN.md I.2 (C19)'),
  'C20': dict(
